@@ -128,3 +128,111 @@ def run_ground_state(sg, occ):
 
     oc = ex.explore(thunk)
     return out, oc, ex
+
+
+def dataset_section(rep):
+    """SymmetryAnalyzer.get_symmetry_dataset and the getters on top of it: spglib is asked about the analysed structure (its cell, scaled
+    positions, atomic numbers) with the analyzer's own tolerance, once; None / a crash become CellNormalizationError; the simple getters hand
+    out the dataset fields they are named after"""
+    from engine.symcoll import Opaque
+    m = contexts.symmetry_ctx()
+    FNQ = REL + ":SymmetryAnalyzer.get_symmetry_dataset"
+    f = m.get("SymmetryAnalyzer.get_symmetry_dataset")
+    T = {k: Opaque(k) for k in ("cell", "scaled", "numbers", "tol")}
+
+    class Sys:
+        def get_cell(self):
+            return T["cell"]
+
+        def get_scaled_positions(self, wrap=True):
+            return T["scaled"]
+
+        def get_atomic_numbers(self):
+            return T["numbers"]
+
+    class OtherSys(Sys):
+        def get_cell(self):
+            return Opaque("cell-of-another-system")
+
+        def get_scaled_positions(self, wrap=True):
+            return Opaque("positions-of-another-system")
+
+        def get_atomic_numbers(self):
+            return Opaque("numbers-of-another-system")
+
+    class DSobj:
+        number = 1
+
+    old = {k: m.globals.get(k) for k in ("segfault_protect", "spglib")}
+    try:
+        for mode in ("dataset", "none", "crash"):
+            calls = []
+            SPG = Opaque("spglib.get_symmetry_dataset")
+
+            class SpglibShim:
+                get_symmetry_dataset = SPG
+
+            def protect(fn, *a, mode=mode, calls=calls, **k):
+                calls.append((fn, a, k))
+                if mode == "crash":
+                    raise RuntimeError("segfault")
+                return None if mode == "none" else DSobj
+
+            m.globals["segfault_protect"] = protect
+            m.globals["spglib"] = SpglibShim
+            ex = Explorer(FNQ)
+            box = {}
+
+            def thunk(st):
+                self_ = contexts.make_self(m, "SymmetryAnalyzer", {"_symmetry_dataset": None, "_analyzed_system": Sys(), "_original_system": OtherSys(),
+                                                                    "system": OtherSys(), "symmetry_tol": T["tol"]})
+                it = Interp(st)
+                r = it.run_func(f, [self_], {})
+                r2 = it.run_func(f, [self_], {})
+                box.update(r=r, r2=r2, self=self_)
+                return r
+
+            oc = ex.explore(thunk)
+            bad = []
+            if len(calls) != 1:
+                bad.append("spglib asked %d times for two calls of the getter" % len(calls))
+            else:
+                fn, a, k = calls[0]
+                if fn is not SPG:
+                    bad.append("not spglib.get_symmetry_dataset")
+                if not (len(a) == 2 and not k and isinstance(a[0], tuple) and len(a[0]) == 3 and a[0][0] is T["cell"] and a[0][1] is T["scaled"] and a[0][2] is T["numbers"]):
+                    bad.append("the structure described to spglib is not (cell, scaled positions, atomic numbers) of the analysed system")
+                elif a[1] is not T["tol"]:
+                    bad.append("tolerance passed to spglib is not the analyzer's symmetry_tol")
+            if mode == "dataset":
+                if not (len(oc) == 1 and oc[0][0] == "return" and box.get("r") is DSobj and box.get("r2") is DSobj):
+                    bad.append("does not return (and cache) the dataset")
+            else:
+                from matid.utils.exceptions import CellNormalizationError
+                if not (len(oc) == 1 and oc[0][0] == "raise" and type(oc[0][1]).__name__ == "CellNormalizationError"):
+                    bad.append("spglib %s does not become CellNormalizationError: %r" % (mode, oc[0][:2] if oc else None))
+            rep.add(Ob(id="dataset.get_symmetry_dataset[%s]" % mode, status="proved" if not bad else "refuted", backend="pyvc", kind="vc", func=FNQ, detail="; ".join(bad)[:500]))
+    finally:
+        for k, v in old.items():
+            m.globals[k] = v
+    # getters: field of the dataset
+    toks = {k: Opaque(k) for k in ("rotations", "translations", "choice", "origin_shift", "transformation_matrix")}
+
+    class DS:
+        pass
+
+    for k, v in toks.items():
+        setattr(DS, k, v)
+    for g, field in (("get_rotations", "rotations"), ("get_translations", "translations"), ("get_choice", "choice"), ("_get_spglib_origin_shift", "origin_shift"),
+                     ("_get_spglib_transformation_matrix", "transformation_matrix")):
+        fg = m.get("SymmetryAnalyzer." + g)
+        ex = Explorer(g)
+        oc = ex.explore(lambda st, fg=fg: Interp(st, contracts={REL + ":SymmetryAnalyzer.get_symmetry_dataset": lambda *a: DS}).run_func(fg, [contexts.make_self(m, "SymmetryAnalyzer")], {}))
+        ok = len(oc) == 1 and oc[0][0] == "return" and oc[0][1] is toks[field]
+        rep.add(Ob(id="dataset.getter.%s-is-dataset.%s" % (g, field), status="proved" if ok else "refuted", backend="pyvc", kind="vc", func=REL + ":SymmetryAnalyzer." + g))
+    fg = m.get("SymmetryAnalyzer.get_symmetry_operations")
+    ex = Explorer("ops")
+    oc = ex.explore(lambda st: Interp(st, contracts={REL + ":SymmetryAnalyzer.get_symmetry_dataset": lambda *a: DS}).run_func(fg, [contexts.make_self(m, "SymmetryAnalyzer")], {}))
+    ok = len(oc) == 1 and oc[0][0] == "return" and isinstance(oc[0][1], dict) and oc[0][1].get("rotations") is toks["rotations"] and oc[0][1].get("translations") is toks["translations"]
+    rep.add(Ob(id="dataset.getter.get_symmetry_operations-pairs-rotations-and-translations", status="proved" if ok else "refuted", backend="pyvc", kind="vc",
+               func=REL + ":SymmetryAnalyzer.get_symmetry_operations"))
